@@ -10,7 +10,8 @@
      src/read/relocate.rs      impl Reader for RelocateReader         = [rcur], [rr_*], [rr_impl]
    An operation language [cop] and [gstep impl be root c op] run one Reader call; [pstep] runs a pool
    of live readers (clone / split results / drop in any order).
-   NO proofs here. Correspondence streams: c10.ops c10.seq c10.utf8 *)
+   NO proofs here. Correspondence streams: c10.seq c10.ops c10.utf8 (model = expected column);
+   c10.parse compares the Rust reader kinds with each other only. *)
 From Coq Require Import List NArith ZArith Bool.
 From Coq.Strings Require Import Byte.
 Require Import GV.Base.Res GV.Base.Byt GV.Base.Ints GV.Model.Prim GV.Spec.CursorSpec.
